@@ -13,6 +13,7 @@ import (
 	"net/http"
 	"net/url"
 	"reflect"
+	goruntime "runtime"
 	"sort"
 	"strconv"
 	"strings"
@@ -69,6 +70,7 @@ type Request struct {
 	Reason  string
 	Fault   string // non-empty if a fault was injected on this request
 	Applied bool   // the store changed (Post differs from Pre)
+	GID     int64  // goroutine that issued the request (attribution in concurrent runs)
 }
 
 func (r *Request) Mutating() bool {
@@ -103,6 +105,7 @@ type ReqInfo struct {
 	Name  string
 	Sub   string
 	Tag   string
+	GID   int64
 }
 
 // Fault describes an injected failure.
@@ -159,6 +162,7 @@ type Server struct {
 
 	cbMu    sync.RWMutex
 	gateFn  func(*ReqInfo)
+	afterFn func(*ReqInfo)
 	faultFn func(*ReqInfo) *Fault
 	cut     atomic.Bool // crash cut: every mc request fails with a transport error
 
@@ -225,6 +229,14 @@ func (s *Server) Tag() string      { return s.tag.Load().(string) }
 func (s *Server) SetGate(fn func(*ReqInfo)) {
 	s.cbMu.Lock()
 	s.gateFn = fn
+	s.cbMu.Unlock()
+}
+
+// SetAfter installs a callback run after a (non-watch) request from metacontroller has been
+// processed, before the response is handed back.
+func (s *Server) SetAfter(fn func(*ReqInfo)) {
+	s.cbMu.Lock()
+	s.afterFn = fn
 	s.cbMu.Unlock()
 }
 
@@ -561,7 +573,7 @@ func (s *Server) RoundTrip(req *http.Request) (*http.Response, error) {
 			verb = "delete"
 		}
 	}
-	ri := &ReqInfo{Seq: s.tick(), Verb: verb, GVR: pp.gvr, NS: pp.ns, Name: pp.name, Sub: pp.sub, Tag: s.Tag()}
+	ri := &ReqInfo{Seq: s.tick(), Verb: verb, GVR: pp.gvr, NS: pp.ns, Name: pp.name, Sub: pp.sub, Tag: s.Tag(), GID: GoID()}
 	if verb != "list" && verb != "watch" {
 		s.mu.Lock()
 		s.opSeq++
@@ -576,7 +588,7 @@ func (s *Server) RoundTrip(req *http.Request) (*http.Response, error) {
 	}
 
 	s.cbMu.RLock()
-	gate, faultFn := s.gateFn, s.faultFn
+	gate, faultFn, after := s.gateFn, s.faultFn, s.afterFn
 	s.cbMu.RUnlock()
 	if gate != nil {
 		gate(ri)
@@ -604,6 +616,9 @@ func (s *Server) RoundTrip(req *http.Request) (*http.Response, error) {
 		return s.faultResponse(req, ri, fault, in)
 	}
 	code, out, entry := s.do(in)
+	if after != nil {
+		after(ri)
+	}
 	if fault != nil && fault.After {
 		entry.Fault = fault.describe() + "(after)"
 		if fault.Transport {
@@ -658,6 +673,19 @@ func (s *Server) faultResponse(req *http.Request, ri *ReqInfo, f *Fault, in *opI
 	s.log = append(s.log, entry)
 	s.mu.Unlock()
 	return jsonResponse(req, f.Code, statusErr(f.Code, reason, "sim: injected fault")), nil
+}
+
+// GoID returns the id of the calling goroutine (parsed from the stack header; test-only use).
+func GoID() int64 {
+	var buf [64]byte
+	n := goruntime.Stack(buf[:], false)
+	// "goroutine 123 [running]:"
+	f := strings.Fields(string(buf[:n]))
+	if len(f) < 2 {
+		return 0
+	}
+	id, _ := strconv.ParseInt(f[1], 10, 64)
+	return id
 }
 
 func flatQuery(q url.Values) map[string]string {
@@ -768,7 +796,7 @@ type opInput struct {
 // do executes one non-watch operation atomically and logs it.
 func (s *Server) do(in *opInput) (int, interface{}, *Request) {
 	ri := in.ri
-	entry := &Request{Seq: ri.Seq, OpSeq: ri.OpSeq, Actor: in.actor, Tag: ri.Tag, Verb: ri.Verb, GVR: ri.GVR, NS: ri.NS, Name: ri.Name, Sub: ri.Sub, Query: flatQuery(in.query)}
+	entry := &Request{Seq: ri.Seq, OpSeq: ri.OpSeq, Actor: in.actor, Tag: ri.Tag, GID: ri.GID, Verb: ri.Verb, GVR: ri.GVR, NS: ri.NS, Name: ri.Name, Sub: ri.Sub, Query: flatQuery(in.query)}
 	if in.bodyObj != nil {
 		entry.Body = in.bodyObj
 	} else {
@@ -1181,6 +1209,10 @@ func (s *Server) updateLocked(rs *resState, cur, obj Obj, sub string, entry *Req
 	nm := meta(next)
 	nm["resourceVersion"] = cm["resourceVersion"]
 	key := objKey(ns, name)
+	// the object that would be stored is validated, whatever verb produced it
+	if st := validateObject(next, info); st != nil {
+		return int(st.Code), st
+	}
 	if reflect.DeepEqual(next, cur) {
 		// etcd3 store: byte-identical update is a no-op, no new resourceVersion, no event.
 		return 200, DeepCopy(cur)
